@@ -328,7 +328,7 @@ Lemma params_eqb_refl p : params_eqb p p = true.
 Proof.
   unfold params_eqb. replace (params_same p p) with true; [reflexivity|].
   induction p as [|[k v] p IH]; simpl; [reflexivity|].
-  rewrite str_eqb_refl, <- IH. destruct v; simpl; [rewrite str_eqb_refl | rewrite Z.eqb_refl]; reflexivity.
+  rewrite str_eqb_refl, <- IH. destruct v; simpl; [rewrite str_eqb_refl | rewrite Z.eqb_refl | rewrite str_eqb_refl]; reflexivity.
 Qed.
 
 Lemma sgroups_eqb_refl g : sgroups_eqb g g = true.
